@@ -512,3 +512,158 @@ def unbound_uses(fi: FuncInfo, cfg: Optional[CFG] = None) -> List[Tuple[Node, as
                     if ("@def:" + x.id, True) not in IN[n.id]:
                         out.append((n, x))
     return out
+
+
+# ---------------------------------------------------------------------------
+# expression expansion: local aliases and same-module helper functions
+
+
+def _helper_body(fn) -> Optional[Tuple[List[ast.Assign], ast.AST]]:
+    """(straight-line single-name assignments, returned expression) of a small
+    pure helper; None when the function has any other statement."""
+    assigns: List[ast.Assign] = []
+    ret = None
+    for st in fn.body:
+        if isinstance(st, ast.Expr) and isinstance(st.value, ast.Constant):
+            continue
+        if isinstance(st, ast.Assign) and len(st.targets) == 1 and isinstance(st.targets[0], ast.Name):
+            assigns.append(st)
+            continue
+        if isinstance(st, ast.AnnAssign) and isinstance(st.target, ast.Name) and st.value is not None:
+            assigns.append(ast.Assign(targets=[st.target], value=st.value))
+            continue
+        if isinstance(st, ast.Return) and st.value is not None and st is fn.body[-1]:
+            ret = st.value
+            continue
+        if isinstance(st, ast.Assert):
+            continue
+        return None
+    if ret is None:
+        return None
+    return assigns, ret
+
+
+class _Subst(ast.NodeTransformer):
+    def __init__(self, mapping: Dict[str, ast.AST]):
+        self.mapping = mapping
+
+    def visit_Name(self, node):
+        if isinstance(node.ctx, ast.Load) and node.id in self.mapping:
+            import copy
+
+            return copy.deepcopy(self.mapping[node.id])
+        return node
+
+
+def expand_expr(repo: Repo, fi: FuncInfo, e: ast.AST, depth: int = 4, locals_too: bool = True) -> ast.AST:
+    """Rewrite ``e`` (an expression of function ``fi``) so that it can be folded:
+    * a local name bound exactly once in ``fi`` (to an expression without
+      await/yield) is replaced by that expression;
+    * a call ``self.h(..)`` / ``cls.h(..)`` / ``Class.h(..)`` / ``h(..)`` of a
+      small pure helper defined in the same module (straight-line assignments
+      and one ``return``) is replaced by the helper's returned expression with
+      the arguments substituted.
+    Anything else is left as it is (and will make ``fold`` raise NotFoldable)."""
+    import copy
+
+    e = copy.deepcopy(e)
+    mod = fi.module
+    clsname = fi.qualname.split(".")[0] if fi.cls is not None else None
+
+    def helper_for(call: ast.Call):
+        f = call.func
+        cands = []
+        if isinstance(f, ast.Attribute) and isinstance(f.value, ast.Name):
+            if f.value.id in ("self", "cls") and clsname:
+                cands.append("%s.%s" % (clsname, f.attr))
+                # inherited helper in the same module
+                for qn in mod.funcs:
+                    if qn.endswith("." + f.attr) and qn.count(".") == 1:
+                        cands.append(qn)
+            elif f.value.id in mod.classes:
+                cands.append("%s.%s" % (f.value.id, f.attr))
+        elif isinstance(f, ast.Name):
+            cands.append(f.id)
+        for qn in cands:
+            if qn in mod.funcs:
+                return mod.funcs[qn]
+        return None
+
+    def inline(call: ast.Call, d: int) -> Optional[ast.AST]:
+        h = helper_for(call)
+        if h is None or any(isinstance(a, ast.Starred) for a in call.args):
+            return None
+        hb = _helper_body(h.node)
+        if hb is None:
+            return None
+        assigns, ret = hb
+        a = h.node.args
+        params = [x.arg for x in a.posonlyargs + a.args]
+        is_static = any(q.dotted(dec) == "staticmethod" for dec in h.node.decorator_list)
+        if h.cls is not None and not is_static and params and params[0] in ("self", "cls"):
+            bound = params[1:]
+            selfname = params[0]
+        else:
+            bound = params
+            selfname = None
+        if len(call.args) > len(bound):
+            return None
+        mapping: Dict[str, ast.AST] = {}
+        for p, v in zip(bound, call.args):
+            mapping[p] = v
+        for k in call.keywords:
+            if k.arg is None or k.arg not in bound:
+                return None
+            mapping[k.arg] = k.value
+        defaults = dict(zip(reversed([x.arg for x in a.posonlyargs + a.args]), reversed(a.defaults)))
+        for p in bound:
+            if p not in mapping:
+                if p in defaults:
+                    mapping[p] = defaults[p]
+                else:
+                    return None
+        if selfname and isinstance(call.func, ast.Attribute):
+            mapping[selfname] = call.func.value
+        for st in assigns:
+            mapping[st.targets[0].id] = _Subst(dict(mapping)).visit(copy.deepcopy(st.value))
+        out = _Subst(mapping).visit(copy.deepcopy(ret))
+        return rec(out, d - 1)
+
+    FOLD_FUNCS = ("range", "bool", "int", "len", "str", "min", "max")
+
+    def foldable_def(v: ast.AST) -> bool:
+        """the defining expression only uses operations fold() knows (or helpers we can inline)"""
+        for y in ast.walk(v):
+            if isinstance(y, ast.Call):
+                if isinstance(y.func, ast.Name) and y.func.id in FOLD_FUNCS:
+                    continue
+                h = helper_for(y)
+                if h is not None and _helper_body(h.node) is not None:
+                    continue
+                return False
+            if isinstance(y, (ast.Await, ast.Yield, ast.YieldFrom, ast.Lambda, ast.ListComp, ast.GeneratorExp, ast.DictComp, ast.SetComp)):
+                return False
+        return True
+
+    def rec(x: ast.AST, d: int) -> ast.AST:
+        if d <= 0:
+            return x
+
+        class T(ast.NodeTransformer):
+            def visit_Call(self, node):
+                node = self.generic_visit(node)
+                r = inline(node, d)
+                return r if r is not None else node
+
+            def visit_Name(self, node):
+                if locals_too and isinstance(node.ctx, ast.Load) and node.id not in ("self", "cls"):
+                    st = [s for s in q.stores_to(fi.node, node.id)]
+                    if len(st) == 1 and isinstance(st[0], (ast.Assign, ast.AnnAssign)) and getattr(st[0], "value", None) is not None and q.assigned_paths(st[0]) == {node.id} and not q.has_suspension(st[0].value) and node.id not in fi.params():
+                        tgt = st[0].targets[0] if isinstance(st[0], ast.Assign) else st[0].target
+                        if isinstance(tgt, ast.Name) and not any(isinstance(y, ast.Name) and y.id == node.id for y in ast.walk(st[0].value)) and foldable_def(st[0].value):
+                            return rec(copy.deepcopy(st[0].value), d - 1)
+                return node
+
+        return T().visit(x)
+
+    return ast.fix_missing_locations(rec(e, depth))
